@@ -453,7 +453,7 @@ func checkCountersigValuePredicate(r *Report, rule string) map[*ssa.Function]boo
 						why = "a *Countersignature is accepted without a nil test"
 					}
 				case p.has(Fact{lstOK, true}):
-					if !(p.has(Fact{tEq(tInt(0), tLen(lstV)), false}) || p.has(Fact{tLt(tInt(0), tLen(lstV)), true})) {
+					if !fs.holdsNonEmpty(lstV) {
 						why = "a []*Countersignature is accepted without a non-empty test"
 					} else if L == nil {
 						why = "a []*Countersignature is accepted without a full-range loop over its elements"
